@@ -76,6 +76,8 @@ func (ec *evalCtx) resolveType(s string) types.Type {
 		return types.Typ[types.String]
 	case "byte":
 		return types.Universe.Lookup("byte").Type()
+	case "iface": // interface{}
+		return types.NewInterfaceType(nil, nil).Complete()
 	}
 	if ec.pkg == nil {
 		panic(vcErrorf("cannot resolve type %q without a package", s))
@@ -97,6 +99,20 @@ func (ec *evalCtx) resolveType(s string) types.Type {
 						}
 					}
 				}
+			}
+		}
+		// a type expression that mentions (possibly unexported) types of one
+		// other repository package: evaluate it in that package's scope
+		for path, tp := range ec.vc.w.tpkgs {
+			if !strings.HasPrefix(path, modPath) {
+				continue
+			}
+			q := shortPkg(path) + "."
+			if !strings.Contains(s, q) {
+				continue
+			}
+			if tv2, err2 := types.Eval(ec.vc.w.fset, tp, token.NoPos, strings.ReplaceAll(s, q, "")); err2 == nil && tv2.IsType() {
+				return tv2.Type
 			}
 		}
 		panic(vcErrorf("cannot resolve type %q: %v", s, err))
@@ -740,11 +756,26 @@ func (ec *evalCtx) evalCall(c *ECall) Val {
 		if ec.entryAlloc == "" {
 			panic(vcErrorf("fresh() outside a function contract"))
 		}
+		// allocated during the call: at or above the allocation counter at
+		// entry and below the counter now
+		cur := ""
+		if ec.heap != nil && !ec.specDef {
+			ec.vc.compDecl(compAlloc, sortInt)
+			cur = ec.vc.hget(ec.heap, compAlloc)
+		}
 		switch v.K {
 		case KSlice:
-			return boolVal(sOr(sLe(ec.entryAlloc, "(s-arr "+v.T+")"), sEq("(s-arr "+v.T+")", "0")))
+			c := sLe(ec.entryAlloc, "(s-arr "+v.T+")")
+			if cur != "" {
+				c = sAnd(c, sLt("(s-arr "+v.T+")", cur))
+			}
+			return boolVal(sOr(c, sEq("(s-arr "+v.T+")", "0")))
 		case KRef:
-			return boolVal(sLe(ec.entryAlloc, v.T))
+			c := sLe(ec.entryAlloc, v.T)
+			if cur != "" {
+				c = sAnd(c, sLt(v.T, cur))
+			}
+			return boolVal(c)
 		}
 		panic(vcErrorf("fresh of %v", v.K))
 	case "$update":
@@ -780,6 +811,25 @@ func (ec *evalCtx) evalCall(c *ECall) Val {
 	case "dyn": // dynamic type tag of an interface value
 		v := ec.eval(arg(0))
 		return mathInt("(i-tag " + v.T + ")")
+	case "ptr": // ptr(e, *T): the integer e read as a pointer to T (ghost references)
+		v := ec.eval(arg(0))
+		t := ec.typeArg(arg(1))
+		r := scalarVal(t, v.T)
+		if r.K == KPtr {
+			r.Loc = &Loc{Comp: vc.cellComp(t.Underlying().(*types.Pointer).Elem()), Idx: v.T}
+		}
+		return r
+	case "addr": // addr(p): the address held by a pointer variable, as an integer
+		v := ec.eval(arg(0))
+		if v.T == "" {
+			panic(vcErrorf("addr(): not a first-class pointer"))
+		}
+		return mathInt(v.T)
+	case "payload": // payload(x): the value part of an interface value (a reference for pointer types)
+		v := ec.eval(arg(0))
+		return mathInt("(i-val " + v.T + ")")
+	case "typetag": // typetag(T): dynamic type tag of T
+		return mathInt(sNum(int64(vc.tagOf(ec.typeArg(arg(0))))))
 	case "istype": // istype(x, T)
 		v := ec.eval(arg(0))
 		t := ec.typeArg(arg(1))
